@@ -38,7 +38,7 @@ def generate(rng, prop, tier):
         label = rng.choice(B.PERSISTENT)
         kind, arg = rng.choice(M.KEYMAPS)
         fn = rng.weighted([(2, 'f1'), (4, 'f2'), (2, 'f3'), (3, 'f4'), (4, 'f5'), (4, 'f6'), (1, 'f7'), (1, 'f8'),
-                           (4, 'f9'), (3, 'n9')])
+                           (4, 'f9'), (3, 'n9'), (3, 't2')])
         if rng.chance(0.08):
             # key OBJECTS pickled into the archive: raw keymap, many parameters (a flat key of more than 16 items)
             label, kind, arg, fn = rng.choice(['file-pkl', 'file-pkl', 'dir-pkl']), 'raw', None, 'n9'
@@ -92,7 +92,8 @@ def generate(rng, prop, tier):
     if rng.chance(0.35) and not (kind == 'pickle' and arg == 'json') and not (kind == 'raw' and label in ('file-src', 'dir-src')):
         ignore = {'f2': [['y'], ['x', 'y']], 'f7': [['y'], ['x', 'y']], 'f6': [['x', 'y'], ['y', '*'], ['**', 'x', 'y']],
                   'f9': [['x', 'y'], ['y', 'z', 'x'], ['z', 'y'], [0, 1]], 'f3': [['*'], ['x', '*']],
-                  'f5': [['**'], ['x', '**']], 'f4': [['k'], ['x', 'k']], 'f8': [['k', 'x']]}.get(fn)
+                  'f5': [['**'], ['x', '**']], 'f4': [['k'], ['x', 'k']], 'f8': [['k', 'x']],
+                  't2': [['t', 'T'], ['T', 't', 'x'], ['T']]}.get(fn)
         ignore = rng.choice(ignore) if ignore else None
     return {'engine': 'sessions', 'prop': prop, 'backend': B.config(label, 'k0'), 'keymap': km, 'fn': fn,
             'ignore': ignore,
